@@ -17,9 +17,21 @@ WHERE = {"none": "", "eq": "b = 'x'", "kw": "b <> '%s'" % KW,
 GB = {"all": [], "a": ["a"], "b": ["b"], "ab": ["a", "b"], "expr": ["CONCAT('_', a, b) AS ab"], "lossy": ["SUBSTR(b, 0, 1) AS b1"], "none": []}
 ORDER = {"none": ("", []), "fdesc": ("f DESC", ["f"]), "a_time": ("a, _time", ["a", "_time"]), "timedesc_f": ("_time DESC, f", ["_time", "f"])}
 LIM = {"none": "", "l2": "LIMIT 2", "l2o1": "LIMIT 1, 2"}
-FROM = {"t": "t", "sub_ab": "(SELECT f, g FROM t GROUP BY a, b)", "sub_a": "(SELECT f, g FROM t GROUP BY a)",
+LVL = {"all": "", "a": " GROUP BY a", "b": " GROUP BY b", "ab": " GROUP BY a, b"}
+
+
+def render_from(fr):
+    if fr["kind"] == "t":
+        return "t"
+    if fr["kind"] == "ord":
         # (a total order: with ties at the cut LIMIT may keep either row, and the two plans need not agree)
-        "sub_ord": "(SELECT f, g FROM t GROUP BY a, b ORDER BY f DESC, a, b, _time LIMIT 3)"}
+        return "(SELECT f, g FROM t GROUP BY a, b ORDER BY f DESC, a, b, _time LIMIT 3)"
+    inner = "t"
+    for g in reversed(fr["chain"]):       # chain[0] is the outermost sub-query
+        inner = "(SELECT f, g FROM %s%s)" % (inner, LVL[g])
+    return inner
+
+
 TABLE_SQL = {"all": "SELECT SUM(w) AS f, SUM(x) AS g FROM s GROUP BY period(1s)",
              "ab": "SELECT SUM(w) AS f, SUM(x) AS g FROM s GROUP BY a, b, period(1s)",
              "a": "SELECT SUM(w) AS f, SUM(x) AS g FROM s GROUP BY a, period(1s)"}
@@ -30,7 +42,7 @@ TGS = ["all", "ab", "a"]
 def render(q, variant=0):
     """SQL text of a descriptor.  variant 1 writes the keywords in upper case
     and adds line breaks (the rewrite of the non-pushdown path is textual)."""
-    parts = ["SELECT " + SEL[q["sel"]], "FROM " + FROM[q["from"]]]
+    parts = ["SELECT " + SEL[q["sel"]], "FROM " + render_from(q["from"])]
     if WHERE[q["where"]]:
         parts.append("WHERE " + WHERE[q["where"]])
     gb = list(GB[q["gb"]])
@@ -75,7 +87,7 @@ def unsupported(q, tg):
     # (grouping by a dimension the table has dropped is legal: every row has it unset)
     if q["gb"] in ("expr", "lossy") or q["ctab"] == "b" or q["where"] in ("eq", "kw"):
         need.add("b")
-    if q["from"] in ("sub_ab", "sub_ord"):
+    if q["from"]["kind"] == "ord" or any("b" in g for g in q["from"]["chain"]):
         need.add("b")
     return not need <= dims
 
@@ -95,7 +107,7 @@ def check_C11(args):
             counts = []
         else:
             out = os.path.join(work, "plan.ndjson")
-            sample = 12 if quick else 1
+            sample = 24 if quick else 1
             counts, wall = gen_cases("GenPlan", dict(Sample=sample, Offset=common.seed() % sample), out, os.path.join(work, "gen"))
             descs = [json.loads(l) for l in open(out) if l.strip()]
             print("[%s] GenPlan: %s descriptors kept of %s in %.1fs" % (pid, counts[0], counts[1], wall), flush=True)
